@@ -212,7 +212,8 @@ def read_ndjson(path):
 def _tlc_env(extra=None, heap="3g"):
     env = dict(os.environ)
     # bound every JVM: many TLC processes run side by side (default heap would be 25 % of RAM each)
-    env["JAVA_TOOL_OPTIONS"] = "-Xmx" + heap
+    # TLC leaves an empty tlc-<n> directory in java.io.tmpdir per run: keep the litter inside the scratch directory
+    env["JAVA_TOOL_OPTIONS"] = "-Xmx" + heap + " -Djava.io.tmpdir=" + sub("jtmp")
     if extra:
         env.update(extra)
     return env
